@@ -87,7 +87,7 @@ m = {
  "version": 1,
  "setup_cmd": "./check setup",
  "hooks": {"guard": "reval_verif", "enable": "RUSTFLAGS=--cfg reval_verif (harness/.cargo/config.toml sets it for the harness; ./check C02 runs `cargo test` in /repo with it and REVAL_VERIF_TRACE=<file>). The hook (src/verif.rs + two call sites) is add-only and inert unless that environment variable is set; all other checks observe reval through its public API only",
-           "baseline_off_cmd": "cd /repo && cargo test --workspace --no-fail-fast --offline", "source_commits": ["9cd2cc5", "a25f989"], "add_only": True},
+           "baseline_off_cmd": "cd /repo && cargo test --workspace --no-fail-fast --offline", "source_commits": ["9cd2cc5", "a25f989", "7c1fca6"], "add_only": True},
  "engines": [{"name": "tlc+conform", "path": "/verif/check", "serves_properties": sorted(CLAIMED),
               "kind_free_text": "explicit TLA+ specification suite (spec/*.tla) checked by TLC; TLC-enumerated cases replayed into reval and recorded reval executions validated against the spec by TLC, through the Rust harness harness/ (binary conform)"}],
  "checks": checks,
